@@ -73,7 +73,7 @@ let () =
           let e = expr_of_string (String.trim line) in
           print_endline ("M=" ^ show_res (mathml e) ^ "\tL=" ^ show_res (latex e) ^ "\tU=" ^ show_res (unicode e)
                          ^ "\tJ=" ^ show_res (julia e) ^ "\tS=" ^ show_res (sbml e)
-                         ^ "\t#G:" ^ flag (mm_guard e) ^ flag (latex_guard e) ^ flag (unicode_guard e) ^ flag (sbml_fragment e))
+                         ^ "\t#G:" ^ flag (mm_guard e) ^ flag (latex_guard e) ^ flag (unicode_guard e) ^ flag (sbml_fragment e) ^ flag (latex_names_ok e))
         end
       with
       | Unsupported m -> print_endline ("UNSUPPORTED " ^ m)
